@@ -931,6 +931,32 @@ theorem round_trip_of_built_table (pf : ParseFloat)
   subst hl'
   exact ⟨t2, hl, hg2, ha, hr⟩
 
+/-- **round_trip_of_wellformed_commands**: the property's last sentence, end to end, for its own quantifier — "every
+finite sequence of well-formed route commands … and every table such sequences produce". For every list of well-formed
+commands (`DefOK`) that builds a table `t`: if no route of `t` holds two targets with the same service, URL, tags and
+four-decimal weight (`hk`, the property's "whenever"), then `NewTable(t.String())` succeeds and rebuilds, per host and
+path, the same targets in order with the same service, URL, tags and options and the weight to four decimals, and
+its own `String()` is the normalised text of `t`. What is assumed beyond the property's hypothesis is about libraries
+only: `url.Parse(dst).String()` is non-empty, free of white space and a fixpoint of `url.Parse ∘ String` (`hu`), the
+lines are shorter than `bufio.MaxScanTokenSize` (`hshort`), `strconv.ParseFloat` reads the printed weights (`hpf`) -/
+theorem round_trip_of_wellformed_commands (pf : ParseFloat)
+    (hpf : ∀ w : Rat, 0 < w → pf (fmt4 w) = some (.fin (round4Rat w)))
+    (cs : List (Str × RouteDef)) (hcs : ∀ x ∈ cs, C05Lang.DefOK pf x.1 x.2)
+    (ht : newTable env (cs.map (·.2)) = .ok t)
+    (hk : ∀ kv ∈ t, ∀ r ∈ kv.2, (r.targets.map C05Rebuild.dupKey).Nodup)
+    (hu : ∀ kv ∈ t, ∀ r ∈ kv.2, ∀ tg ∈ r.targets,
+      tg.url ≠ [] ∧ env.normURL tg.url = some tg.url ∧ ∀ c ∈ tg.url, isUniSpace c = false)
+    (hshort : ∀ hst, ∀ r ∈ t.get hst, ∀ tg ∈ r.targets, byteLen (renderTarget r tg) < maxToken) :
+    ∃ t2, loadTable env pf (render t) = .ok t2 ∧ Good env t2 ∧
+      abs t2 = (fun h p => weigh ((abs t h p).map norm4)) ∧ render t2 = render (C05Fix.normTable t) := by
+  have hg := good_newTable ht
+  have htext := C05From.textOK_of_wellformed cs hcs ht
+    (fun hst r hr tg htg =>
+      have h0 := (C05Fix.of_mem_get hg.inv.wf hr).1
+      ⟨(hu _ h0 r hr tg htg).1, (hu _ h0 r hr tg htg).2.2⟩) hshort
+  exact round_trip_of_built_table pf hpf ht htext hk
+    (fun kv hkv r hr tg htg => ⟨(hu kv hkv r hr tg htg).1, (hu kv hkv r hr tg htg).2.1⟩)
+
 /-- evaluated: a table built by commands (two hosts in different letter case, a weight command, a del), its text read
 back and rendered again -/
 example : (match newTable envB [addB "s" "Foo.com/a" "http://a:1/" (1/4), addB "t" "foo.COM/a" "http://b:1/" (3/4),
